@@ -152,3 +152,18 @@ CHECKS["C06"] = {
     "assumptions": PFCP_ASSUME + ["goroutines are cooperative coroutines; the loop is run to quiescence after each injected event, which enumerates exactly the merges of the receive and timeout queues"],
 }
 
+
+CHECKS["C09"] = {
+    "jobs": {
+        "quick": [{"pkg": "internal/pfcp", "entries": ["ZZ_C09_*"], "witnesses": 3, "max_paths": 400000, "budget_s": 900}],
+        "thorough": [{"pkg": "internal/pfcp", "entries": ["ZZ_C09_*"], "witnesses": 6, "max_paths": 4000000, "budget_s": 3000}],
+    },
+    "covers": {"all": ["ZZ_C09_Loop:C09.done", "ZZ_C09_Loop:C09.retry", "ZZ_C09_Loop:C09.abandon", "ZZ_C09_Loop:C09.response.matched",
+                       "ZZ_C09_Loop:C09.response.unmatched", "ZZ_C09_Loop:C09.expiry.dead"]},
+    "bounds": {
+        "quick": "the real event loop; transmit counter symbolic over 0..2^24-1 (so the second request crosses the 24-bit boundary), retry limit 0..3, 1..2 Session Report Requests for two sessions of two peers, then 3 events each a retransmission-timer expiry of either request or a Session Report Response from either peer with a symbolic 24-bit sequence number, in every order",
+        "thorough": "same with 4 events",
+    },
+    "outside": "more than 2 outstanding requests; counters beyond 2^24 requests after start (unreachable once the counter wraps at 24 bits); real timers",
+    "assumptions": PFCP_ASSUME,
+}
